@@ -9,10 +9,11 @@ CONSTANTS
   AllowSlow = FALSE
   ParamKinds = {}
   Disabled = {"UserStats", "SessionLost", "ChildAnnounce"}
-  MaxEvents = 3
+  MaxEvents = 2
   Askers = {"me", "u1"}
-  Queries = {"qhit", "qmiss"}
+  Queries = {"qhit", "qmiss", "qphr", "qgone"}
   Hits <- MC_Hits
+  HitsX <- MC_HitsX
   MaxSearches = 1
   FixReannounce = TRUE
   FixChildParent = TRUE
